@@ -60,6 +60,24 @@ pub fn seq_report<M: SeqModel>(run: &mut Run, m: &M, res: &SeqResult, cfg: &SeqC
     }
 }
 
+/// Narrow, deep, no-merge pass: every history of exactly `depth` letters over the named
+/// sub-alphabet, each executed from scratch. Guards against implementation state the canonical
+/// key does not contain (merging, and "unchanged key => not expanded", would hide it).
+pub fn deep_pass<M: SeqModel>(run: &mut Run, m: &M, wanted: &[&str], depth: usize, budget_s: u64) {
+    let letters = m.letters();
+    let sub: Vec<usize> = wanted.iter().map(|w| letters.iter().position(|l| l == w).unwrap_or_else(|| panic!("deep-pass letter {} not in the alphabet {:?}", w, letters))).collect();
+    let res = crate::seq::explore_all_histories(m, &[], &sub, depth, crate::util::workers(), std::time::Duration::from_secs(budget_s));
+    run.cov("deep_pass", json!({"alphabet": wanted, "depth": depth, "histories": res.histories, "transitions": res.transitions, "complete": res.exhausted_bound, "merging": false}));
+    let ex = run.coverage.get("exhaustive").and_then(|v| v.as_bool()).unwrap_or(false);
+    let depth_bound = run.coverage.get("depth_bound").cloned();
+    let cfg = SeqConfig { max_depth: depth, workers: 0, max_states: 0, budget: std::time::Duration::from_secs(0) };
+    seq_report(run, m, &res, &cfg);
+    run.cov("exhaustive", json!(ex && res.exhausted_bound));
+    if let Some(d) = depth_bound {
+        run.cov("depth_bound", d);
+    }
+}
+
 pub fn dispatch(run: &mut Run) -> bool {
     match run.property.as_str() {
         "C01" => c01::run(run),
